@@ -122,10 +122,21 @@ type gateCall struct {
 }
 
 // dyingReader delivers its data and then fails instead of reporting EOF: the writing process is lost mid-write.
-type dyingReader struct{ data []byte }
+// With `die` the loss is a process death: the reader panics, so that no error path of the writer runs (an error
+// path that tidies up is not what a crash leaves behind; seeded C13-9 created new files in place and removed the
+// truncated file only on the error path).
+type dyingReader struct {
+	data []byte
+	die  bool
+}
+
+var errWriterDied = errors.New("writer process died")
 
 func (r *dyingReader) Read(p []byte) (int, error) {
 	if len(r.data) == 0 {
+		if r.die {
+			panic(errWriterDied)
+		}
 		return 0, errors.New("writer lost")
 	}
 	n := copy(p, r.data)
@@ -205,7 +216,20 @@ func (g *gateLoc) Write(path string, data io.Reader) (string, error) {
 		return "", errGateDead
 	}
 	if c.partial.Load() {
-		_, err := g.inner.Write(path, &dyingReader{data: b[:len(b)/2]})
+		// LocalDirectory.Write holds no lock, so unwinding through it is what a process death at that point leaves on disk
+		_, die := g.inner.(*locations.LocalDirectory)
+		err := func() (err error) {
+			defer func() {
+				if r := recover(); r != nil {
+					if r != errWriterDied {
+						panic(r)
+					}
+					err = errWriterDied
+				}
+			}()
+			_, err = g.inner.Write(path, &dyingReader{data: b[:len(b)/2], die: die})
+			return err
+		}()
 		close(c.performed)
 		return "", err
 	}
